@@ -167,6 +167,12 @@ class Instance:
             self.annotations = getattr(self.type, "__metadata__", [])
             self.type = get_args(self.type)[0]
             self.origin_type = get_type_origin(self.type)
+            if is_dataclass(self.origin_type):
+                # the annotated type is a (generic) dataclass of its own
+                self.__self_builder = CodeBuilder(
+                    self.origin_type, get_args(self.type)
+                )
+                self.__self_builder.reset()
 
     def update_type(self, new_type: Type) -> None:
         if self.__owner_builder:
